@@ -14,6 +14,7 @@ type VerifEntryInfo struct {
 	Identifier                      string
 	Present                         bool
 	Loaded                          bool
+	Closed                          bool
 	LastUpdateSignatureVerifyFailed bool
 	StoreNil                        bool
 	Store                           crlstore.CRLStore
@@ -29,7 +30,7 @@ func (R *Repository) VerifEntries() []VerifEntryInfo {
 			continue
 		}
 		e.entryLock.RLock()
-		out = append(out, VerifEntryInfo{Identifier: id, Present: true, Loaded: e.Loaded,
+		out = append(out, VerifEntryInfo{Identifier: id, Present: true, Loaded: e.Loaded, Closed: e.Closed,
 			LastUpdateSignatureVerifyFailed: e.LastUpdateSignatureVerifyFailed, StoreNil: e.CRLStore == nil, Store: e.CRLStore})
 		e.entryLock.RUnlock()
 	}
